@@ -185,3 +185,22 @@ func shardNeighbour(key []byte, j int) []byte {
 		}
 	}
 }
+
+var (
+	sameShardFillPool [][]byte
+	sameShardFillNext int
+)
+
+// sameShardFill returns n keys with the prefix "fill-" that live in the shard of "a".
+func sameShardFill(n int) [][]byte {
+	want := xxhash.Sum64([]byte("a")) % nShards
+
+	for ; len(sameShardFillPool) < n; sameShardFillNext++ {
+		k := []byte(fmt.Sprintf("fill-s%07d", sameShardFillNext))
+		if xxhash.Sum64(k)%nShards == want {
+			sameShardFillPool = append(sameShardFillPool, k)
+		}
+	}
+
+	return sameShardFillPool[:n]
+}
